@@ -826,6 +826,43 @@ func scenarios() []scenario {
 					a.pushU(5).pushU(27).pushU(0).op(opCREATE, opPOP)
 					a.op(opRETURNDATASIZE).returnTop()
 				},
+				// the return-data buffer after creations (empty after a success, and after every failure but a REVERT)
+				"create2-success-clears-returndata": func(a *asm) {
+					a.pushU(0).pushU(0).pushU(32).pushU(0).pushU(0).pushAddr(aEcho).op(opGAS, opCALL, opPOP)
+					a.push(tiny(3)).pushU(0).op(opMSTORE)
+					a.pushU(7).pushU(5).pushU(27).pushU(0).op(opCREATE2, opPOP)
+					a.op(opRETURNDATASIZE).returnTop()
+				},
+				"create2-init-calls-then-stops": func(a *asm) {
+					// init: CALL(identity, 32 bytes in, nothing copied out) then STOP - the inner call's output must not be
+					// visible to the creator
+					init := []byte{0x60, 0x00, 0x60, 0x00, 0x60, 0x20, 0x60, 0x00, 0x60, 0x00, 0x60, 0x04, 0x5a, 0xf1, 0x00}
+					a.push(new(big.Int).SetBytes(init)).pushU(0).op(opMSTORE)
+					a.pushU(9).pushU(uint64(len(init))).pushU(uint64(32-len(init))).pushU(0).op(opCREATE2, opPOP)
+					a.op(opRETURNDATASIZE).pushU(0x40).op(opMSTORE)
+					a.pushU(0).pushU(0).pushU(0x60).op(opRETURNDATACOPY)
+					a.ret(0x40, 0x40)
+				},
+				"create-init-calls-then-stops": func(a *asm) {
+					init := []byte{0x60, 0x00, 0x60, 0x00, 0x60, 0x20, 0x60, 0x00, 0x60, 0x00, 0x60, 0x04, 0x5a, 0xf1, 0x00}
+					a.push(new(big.Int).SetBytes(init)).pushU(0).op(opMSTORE)
+					a.pushU(uint64(len(init))).pushU(uint64(32-len(init))).pushU(0).op(opCREATE, opPOP)
+					a.op(opRETURNDATASIZE).returnTop()
+				},
+				"create2-unaffordable-endowment-after-call": func(a *asm) {
+					a.pushU(0).pushU(0).pushU(32).pushU(0).pushU(0).pushAddr(aEcho).op(opGAS, opCALL, opPOP)
+					a.push(tiny(3)).pushU(0).op(opMSTORE)
+					a.pushU(11).pushU(5).pushU(27).push(new(big.Int).Lsh(big.NewInt(1), 200)).op(opCREATE2).pushU(0x20).op(opMSTORE)
+					a.op(opRETURNDATASIZE).pushU(0x40).op(opMSTORE)
+					a.ret(0x20, 0x40)
+				},
+				"create-unaffordable-endowment-after-call": func(a *asm) {
+					a.pushU(0).pushU(0).pushU(32).pushU(0).pushU(0).pushAddr(aEcho).op(opGAS, opCALL, opPOP)
+					a.push(tiny(3)).pushU(0).op(opMSTORE)
+					a.pushU(5).pushU(27).push(new(big.Int).Lsh(big.NewInt(1), 200)).op(opCREATE).pushU(0x20).op(opMSTORE)
+					a.op(opRETURNDATASIZE).pushU(0x40).op(opMSTORE)
+					a.ret(0x20, 0x40)
+				},
 				"create-empty-init": func(a *asm) {
 					a.pushU(0).pushU(0).pushU(0).op(opCREATE).op(opDUP1).pushU(0).op(opMSTORE).op(opEXTCODEHASH).pushU(0x20).op(opMSTORE).ret(0, 0x40)
 				},
@@ -842,7 +879,9 @@ func scenarios() []scenario {
 			}
 			for _, name := range []string{"selfdestruct-to-self", "selfdestruct-to-nonexistent", "selfdestruct-to-precompile", "selfdestruct-in-callee-then-call-again",
 				"value-exceeds-balance", "value-equals-balance", "callcode-value-exceeds-balance", "create-value-exceeds-balance", "create2-twice-same-salt",
-				"create-twice", "create-init-reverts-with-data", "create-success-clears-returndata", "create-empty-init", "call-nonexistent-no-value", "extcodehash-classes"} {
+				"create-twice", "create-init-reverts-with-data", "create-success-clears-returndata", "create-empty-init", "call-nonexistent-no-value", "extcodehash-classes",
+				"create2-success-clears-returndata", "create2-init-calls-then-stops", "create-init-calls-then-stops", "create2-unaffordable-endowment-after-call",
+				"create-unaffordable-endowment-after-call"} {
 				a := &asm{}
 				progs[name](a)
 				w := miniWorld(gal, a.done(), nil, 3000000).withHelpers().with(Acct{Addr: aEOA, Balance: 1})
